@@ -18,12 +18,18 @@ def gen(rng, tier):
     n = 240 if tier == 'quick' else 5000
     cases = []
     for _ in range(n):
-        o = progs.Opts(open_leaves=0.5 if rng.random() < 0.2 else 0.0, control=True, cut=rng.random() < 0.5, opaque_cut=rng.random() < 0.6, builtins=False, deep=rng.random() < 0.3)
+        o = progs.Opts(open_leaves=0.5 if rng.random() < 0.2 else 0.0, control=True, cut=rng.random() < 0.5, opaque_cut=rng.random() < 0.6, builtins=False, deep=rng.random() < 0.3,
+                       contdup=rng.choice([0.0, 0.0, 0.3, 0.6]))
         p = progs.gen_program(rng, o)
+        if rng.random() < 0.15:
+            p = progs.adversarial_program(rng, p)
         cases.append({'clauses': p['clauses'], 'queries': p['queries']})
     # exhaustive small scope (support for the model-code tie, not the proof): ALL bodies with <= 2 (quick) / <= 3 (thorough)
     # leaves over {q0,q1,q2 (0/1/2 solutions), true, fail, !, =} x {',', ';', '->', '-> ;', \\+}, followed by a continuation goal
     cases.extend(progs.exhaustive_cases(2 if tier == 'quick' else 3))
+    # exhaustive small scope of the shape "continuation duplication":  (A ; B), K  /  (C -> T ; E), K  /  (C -> T), K  where K is a
+    # negation / if-then-else / if-then whose condition has a cut of its own (origin "exhaustive-contdup")
+    cases.extend(progs.exhaustive_contdup_cases(tier != 'quick'))
     return cases
 
 def builtin_corpus():
@@ -68,5 +74,8 @@ def nontrivial(case, io):
 def distribution(cases, obs):
     d = semcheck.stats(cases, obs)
     d['exhaustive_small_scope_bodies'] = sum(1 for c in cases if c.get('origin') == 'exhaustive')
+    d['exhaustive_continuation_duplication_bodies'] = sum(1 for c in cases if c.get('origin') == 'exhaustive-contdup')
+    d['programs_with_construct_after_disjunction_or_ite'] = sum(1 for c in cases if any(progs.has_dup_continuation(b) for _, _, b in c['clauses']))
+    d['programs_with_local_cut_construct_in_duplicated_continuation'] = sum(1 for c in cases if any(progs.has_dup_continuation(b, True) for _, _, b in c['clauses']))
     d['programs_with_opaque_cut'] = sum(1 for c in cases if any(progs.has_opaque_cut(b) for _, _, b in c['clauses']))
     return d
